@@ -126,6 +126,24 @@ CHECKS = {
         design_ref='6/C15',
         note='Trusted: my reading of the JA3 README; the two deviations pinned by the existing test literals are recorded findings.',
         technique='independent TLA+ reference (byte-level JA3) evaluated by TLC on generated and recorded hellos'),
+    'C07': dict(
+        category='model_checking',
+        text='SshWire.tla encodes banner, KEXINIT, DH / group-exchange messages, disconnect and RSA/DSS/ECDSA/Ed25519 key blobs '
+             'from RFC 4251/4253/4419/5656/8709 (name-lists, minimal mpints from Prim.tla, padding rule). TLC proves the padding '
+             'rule for payload lengths 0..35000 and compares compose() of corpus objects, constructor variations, keys at boundary '
+             'bit lengths and random KEXINITs with the reference; real packets are composed for payload lengths 5..35000.',
+        design_ref='6/C07',
+        note='Trusted: my transcription of the RFCs; harness/wire_ssh.py. OpenSSH certificate layouts are not transcribed.',
+        technique='independent TLA+ reference encoder evaluated by TLC on recorded and generated SSH objects'),
+    'C16': dict(
+        category='model_checking',
+        text='TLC extracts the HASSH name-lists from the KEXINIT wire bytes (SshWire.HasshClientPreimage/ServerPreimage) and '
+             'rebuilds the RFC 4253 key blob from key parameters; the harness applies hashlib / base64 to those and compares with '
+             'hassh, hassh_server, fingerprints and known_hosts. KEXINITs over random ordered lists of known/unknown names incl. '
+             'empty lists; keys at boundary bit lengths.',
+        design_ref='6/C16',
+        note='Trusted: hashlib, base64; the rendering rules (prefix, colon, base64 / colon-separated hex) are applied by the harness.',
+        technique='independent TLA+ reference (wire-level preimage and key blob) evaluated by TLC; digests by hashlib'),
 }
 
 NOT_APPLICABLE = {}
